@@ -63,7 +63,11 @@ def dev_line(dev):
 
 
 def _entry_hex(e):
-    return lean.hexs(bytes(bytearray(e.data.array)))
+    """the bytes a returned SelEntry holds (an object that is no decoded entry shows as such, never as a record)"""
+    d = getattr(getattr(e, 'data', None), 'array', None)
+    if d is None:
+        return '<%s-without-data>' % type(e).__name__
+    return lean.hexs(bytes(bytearray(d)))
 
 
 def entry_attrs(e):
@@ -170,6 +174,10 @@ _decode_cache = {}
 def judge_entry(ctx, drv, e, case, stored=None):
     """One SelEntry object the library handed out: attributes against the tables; against the Lean decoding."""
     from pyipmi.event import EVENT_ASSERTION, EVENT_DEASSERTION
+    if getattr(getattr(e, 'data', None), 'array', None) is None:
+        ctx.violate('C12:SelEntry:undecoded', 'an object that holds no decoded record was returned as SEL entry', case,
+                    expected='a SelEntry with its 16 bytes', observed=_entry_hex(e))
+        return
     raw = bytes(bytearray(e.data.array))
     hx = lean.hexs(raw)
     v = view_of(raw)
